@@ -36,6 +36,8 @@ PROPS = {
     "C07": dict(engine="e1", level="exploration"),
     "C08": dict(engine="e1", level="fault_enumeration", rule="e4", evaluations_counter="crash.states", distinct="states"),
     "C33": dict(engine="e1", level="exploration", rule="e1-sync"),
+    "C24": dict(engine="e1", level="exploration", rule="e1-book"),
+    "C25": dict(engine="e1", level="exploration", rule="e1-gate"),
     "C17": dict(engine="e3", level="exploration", rule="e3-derive"),
     "C18": dict(engine="e3", level="exploration", rule="e3-encrypt"),
     "C19": dict(engine="e3", level="exploration", rule="e3-service"),
@@ -57,6 +59,13 @@ ENGINES["e3"] = dict(race=False,
                            "entropy (seeded)", "wall clock (synctest fake clock)"])
 
 RULES = {
+    "e1-book": "one run = one real node (daemon handlers + gnet pool stepped through hooks H4/H5) and scripted peers on 3 IPs x 3 ports: 8-60 events (incoming connect, "
+               "outgoing attempt, its success or failure, introductions with mirror in {0, own, A, B} and listen port in {0, p, q, own}, other messages, peer disconnect, "
+               "clock advance + cull / stale / ping ticks), then removal of every connection; after every event the five bookkeeping maps are compared with the "
+               "connections the pool really holds; distinct = distinct (event kind, outcome) sequence; non-trivial = at least 5 comparisons",
+    "e1-gate": "one run = one real node and scripted peers sending, on fresh and introduced connections, introductions with generated fields and extra bytes (wrong key, "
+               "versions around the minimum, own mirror, parameters in/out of range, 8 user agents, truncated / extended / lying extras) and all other message types in "
+               "any order; introduced-state, disconnects and replies are compared with an independent predicate on the bytes sent; non-trivial = at least 5 events",
     "e1-sync": "one run = a real publisher visor makes 3-12 (thorough 3-25) blocks; a real follower (visor + bolt + daemon handlers + gnet pool stepped through hooks H4/H5) "
                "is connected only to 1-3 scripted relays that answer or ignore its GETB requests, send GIVB with the right / overlapping / gapped / shuffled / repeated / "
                "forged / re-signed blocks, announce arbitrary heights, disconnect, deliver frames chunked or twice; per-run knobs: request count, response cap, message "
